@@ -201,16 +201,12 @@ def funLines (f : Func) : List Nat := dedupKeys (f.blocks.flatMap (·.lines)) []
 theorem keys_addLineCount {f : Func} {c : Cnt} {ex : Bool} {ls : List (Nat × Nat)}
     (h : addLineCount f c = ok (ex, ls)) : keys ls = funLines f := by
   unfold addLineCount at h
-  cases ha : f.arcs with
-  | nil => rw [ha] at h; cases h
-  | cons a as =>
-    rw [ha] at h; simp only at h
-    split at h
-    · obtain ⟨l, h1, h2⟩ := bind_eq_ok.1 h
-      cases h2
-      rw [keys_lineCounts f c _ _ _ h1, keys_linesToBlock]; rfl
-    · cases h
-      rw [keys_zeroLines]; rfl
+  split at h
+  · obtain ⟨l, h1, h2⟩ := bind_eq_ok.1 h
+    cases h2
+    rw [keys_lineCounts f c _ _ _ h1, keys_linesToBlock]; rfl
+  · cases h
+    rw [keys_zeroLines]; rfl
 
 theorem keys_mergeLines : ∀ (ls m t : List (Nat × Nat)), mergeLines m ls = ok t →
     keys t = dedupKeys (keys ls) (keys m) := by
